@@ -262,6 +262,8 @@ def h03b_betdaq(c):
                 with c.guard("poll"):
                     poll(poll_after.split("-")[0], new_seq=poll_after.endswith("new-sequence"))
         lc.transition_obligations(c, rec, [o])
+        if o.id in market.blotter:
+            lc.blotter_coherence(c, market, list(market.blotter), tag="betdaq")
         seen = False
         for (old, new, who) in rec.of(o):
             if seen:
